@@ -63,7 +63,7 @@ def run_case(case):
     kernel, param, width = case["kernel"], case["param"], case["width"]
     dt = np.dtype(case["dt"])
     coord = lops.make_coord(case["cseed"], pts, grid, case["ccls"])
-    with structured((sum(case["rs"]) // 3) % 9 if sum(case["rs"]) % 2 else 0):
+    with structured((sum(case["rs"]) // 3) % 10 if sum(case["rs"]) % 2 else 0):
         x = crandn(rng, batch + grid, dt)
         y = crandn(rng, batch + pts, dt)
     mag = [1, 1, 1, 1e-10, 1e8][sum(case["rs"]) % 5]      # both functions are homogeneous
